@@ -7,6 +7,12 @@ geometry is printed by TLC and replayed: both views are built on one real slice 
 applicable receiver-taking method of Dense / VecDense / SymDense / TriDense / CDense is called.
 Family "matvec": a Dense window and a column / row view (VecDense) of the same parent, either one the
 receiver (Outer, RankOne, Mul, Add with a vector operand; MulVec into a view).
+MatAliasOps.tla: value-carrying families.  "pow": Dense.Pow / Scale / Apply / Inverse of one n x n window of a
+junk-filled parent into every receiver relation (zero value, own storage, every n x n window of the parent,
+the argument itself, the argument itself with the argument passed as its transpose), exponents 0..6 (12);
+"triprod": TriDense.MulTri with the factors in every Triangular representation (windows, the receiver itself,
+TTri of the other kind, DiagDense, DiagView of a window, the receiver's own DiagView, TriBandDense).  The
+specification prints the exact integer result and the whole backing array demanded after the call.
 """
 import json
 import os
@@ -42,7 +48,17 @@ def run(ctx):
         for bn, b in bins.items():
             ctx.replay(b, "matalias", cases, [], name="R2 replay %s shard %d [%s]" % (name, shard, bn))
 
-    thunks = []
+    # value-carrying families (MatAliasOps.tla): exact results and whole backing arrays from the specification
+    maxn, maxexp = (4, 12) if th else (3, 6)
+
+    def ops(fam, shard):
+        s = dict(FAMILY=fam, SHARD=shard, NSHARDS=ns, MAXN=maxn, MAXEXP=maxexp, SEED=ctx.seed, EMIT="EmitOps")
+        nm = "%s n<=%d%s" % (fam, maxn, " exponents 0..%d" % maxexp if fam == "pow" else "")
+        cases = ctx.gen("mat/MatAliasOps.tla", "mat/MatAliasOps.cfg", subst=s, name="R1+R2 gen %s shard %d/%d" % (nm, shard, ns))
+        for bn, b in bins.items():
+            ctx.replay(b, "matalias", cases, [], name="R2 replay %s shard %d [%s]" % (nm, shard, bn))
+
+    thunks = [lambda fam=fam, sh=sh: ops(fam, sh) for fam in ("pow", "triprod") for sh in range(ns)]
     for name, sub in fams:
         for sh in range(ns):
             thunks.append(lambda name=name, sub=sub, sh=sh: one(name, sub, sh))
@@ -54,6 +70,8 @@ def run(ctx):
         "wording); what must happen for a window pair is decided by the specification",
         "only operands that expose Raw* storage take part as the aliased operand (mat/doc.go: overlap with "
         "operands exposing only Matrix is not detected)",
+        "families pow / triprod: the demanded values are exact integer results computed by the specification "
+        "(entries small enough that every power / product is exact in float64); -0 and +0 are identified",
     ]
     return ctx.finish(
         rule="one case = one method call with the receiver on window w1 and an operand on window w2 of one real "
